@@ -298,7 +298,7 @@ pub fn run(tier: Tier) -> (Acc, Vec<Value>) {
     // String
     {
         let mut pool: Pool<String> = Pool::new("String");
-        parse_lens_into(&mut pool, &[("A1a", dn(3, 4)), ("A1b", dn(3, 5)), ("A5b", dn(3, 5)), ("A6", dn(3, 4)), ("A3", dn(3, 5))], None);
+        parse_lens_into(&mut pool, &[("A1a", dn(3, 4)), ("A1b", dn(3, 4)), ("A5b", dn(3, 4)), ("A6", dn(3, 4)), ("A3", dn(3, 4)), ("A10", dn(2, 3))], None);
         build_product_into(&mut pool, &["t", "T.1+x-"], |ty, _| Some(ty.to_owned()), tier);
         reps.push(check_pool(&pool, &mut acc));
     }
